@@ -37,7 +37,7 @@ class C07(FitKernels, FragHarness, WrapHarness):
             out.append({'level': 'text', 'feat': 'full', 'algo': 'F', 'sep': 'A', 'split': split, 'bw': True, 'ind': 'none',
                         'gen': 'words', 'nwords': 3 if q else 4, 'wl': 2 if q else 1, 'maxgap': 2 if split == 'N' else 1})
         out += std_tmpl_spaces({'level': 'text', 'feat': 'full', 'algo': 'F', 'sep': 'A', 'split': 'H', 'bw': True, 'ind': 'none'},
-                               q, names=['short', 'longword', 'crlf'] if q else ['sentence', 'paras', 'wide', 'longword', 'hyphens', 'crlf'])
+                               q, cind=True, names=['short', 'longword', 'crlf'] if q else ['sentence', 'paras', 'wide', 'longword', 'hyphens', 'crlf'])
         out.append({'level': 'text', 'feat': 'full', 'algo': 'F', 'sep': 'A', 'split': 'N', 'bw': True, 'ind': 'si', 'imax': 1,
                     'gen': 'words', 'nwords': 3, 'wl': 2, 'maxgap': 1})
         return out
